@@ -33,6 +33,7 @@ func init() {
 			{Name: "tokens_rand", N: constN(20000, 300000), Gen: c01GenTokensRand, Eval: c02Eval},
 			{Name: "includes", N: constN(600, 20000), Gen: c01GenIncludes, Eval: c02Eval},
 			{Name: "include_fault", N: constN(4000, 150000), Gen: c02GenIncludeFault, Eval: c02Eval},
+			{Name: "pending_fault", N: constN(1500, 40000), Gen: c02GenPending, Eval: c02Eval},
 		},
 		Floors: map[string]int64{"rejections_checked": 5000, "traces_checked": 500},
 	})
@@ -225,6 +226,16 @@ func c02CheckLocation(t *fw.T, c *fw.Case, d run.Doc, o *run.Obs) {
 					cls := "no-include-on-that-line"
 					if strings.Contains(txt, "INCLUDE") {
 						cls = "line-includes-another-file"
+						// does that file include the inner file at all (on some other line)?
+						somewhere := false
+						for _, l := range strings.FieldsFunc(string(inc), func(r rune) bool { return r == '\n' || r == '\r' }) {
+							if includeLineNames(l, filepath.Dir(tr.Path), inner) {
+								somewhere = true
+							}
+						}
+						if !somewhere {
+							cls = "file-does-not-include-it"
+						}
 					}
 					t.Violation("trace-line-wrong:"+cls, fmt.Sprintf("diagnostic %q in %s: trace entry %d says %s:%d includes %s, but that line reads %q; whole trace %v",
 						o.Msg, o.File, i, tr.Path, tr.Line, inner, txt, o.Trace))
@@ -434,3 +445,67 @@ func padLines(r *xrand.Rand) []string {
 }
 
 var _ = mut.Newlines
+
+// c02GenPending: a directive that turns out to be misplaced only when the next keyword arrives, and that keyword
+// is met one, two or three include levels further down (files that start with an INCLUDE).
+func c02GenPending(r *xrand.Rand, idx int, tier string) *fw.Case {
+	uniq := idx * 100
+	files := map[string][]string{}
+	depth := r.Range(0, 3) // how deep the file with the pending directive lies
+	cur := "root.jst"
+	files[cur] = []string{"JSIGHT 0.3"}
+	for d := 1; d <= depth; d++ {
+		next := fmt.Sprintf("lvl%d.jst", d)
+		if r.Bool() {
+			files[cur] = append(files[cur], strings.Split(strings.TrimRight(fragSafe(r, &uniq), "\n"), "\n")...)
+		}
+		files[cur] = append(files[cur], padLines(r)...)
+		files[cur] = append(files[cur], "INCLUDE "+next)
+		files[next] = nil
+		cur = next
+	}
+	target := cur
+	if r.Bool() {
+		files[target] = append(files[target], strings.Split(strings.TrimRight(fragSafe(r, &uniq), "\n"), "\n")...)
+	}
+	faulty := []string{"Body any", "Title \"x\"", "Headers\n{\"h\": \"v\"}", "BaseUrl \"https://a/\"", "Params\n{}", "404 any"}[r.Intn(6)]
+	// a TYPE in front: whatever stood before, the misplaced directive finds no context that admits it
+	files[target] = append(files[target], "TYPE @sep"+fmt.Sprint(uniq)+" any")
+	at := len(files[target])
+	fl := strings.Split(faulty, "\n")
+	files[target] = append(files[target], fl...)
+	// the next keyword comes only after down further include levels
+	down := r.Range(1, 3)
+	prev := target
+	for k := 1; k <= down; k++ {
+		nm := fmt.Sprintf("p%d.jst", k)
+		files[prev] = append(files[prev], padLines(r)...)
+		files[prev] = append(files[prev], "INCLUDE "+nm)
+		files[nm] = nil
+		if r.Chance(1, 3) {
+			files[nm] = append(files[nm], "# leading comment", "")
+		}
+		prev = nm
+	}
+	uniq++
+	files[prev] = append(files[prev], fmt.Sprintf("TYPE @deep%d any", uniq))
+	sep := []string{"\n", "\r\n", "\r"}[r.Intn(3)]
+	out := map[string][]byte{}
+	lo, hi := 0, 0
+	for name, lines := range files {
+		out[name] = []byte(strings.Join(lines, sep) + sep)
+		if name == target {
+			for i := 0; i < at; i++ {
+				lo += len(lines[i]) + len(sep)
+			}
+			hi = lo
+			for i := at; i < at+len(fl); i++ {
+				hi += len(lines[i]) + len(sep)
+			}
+		}
+	}
+	cs := &fw.Case{Docs: []run.Doc{{Files: out, Root: "root.jst"}}, Note: "pending misplaced directive in " + target + ", next keyword " + fmt.Sprint(down) + " include level(s) down"}
+	cs.Meta = map[string]string{"fault_kind": "pending-context", "fault_file": target}
+	cs.Ints = map[string]int{"fault_lo": lo, "fault_hi": hi}
+	return cs
+}
